@@ -16,7 +16,7 @@ def run_hist_job(job):
     opts = job.get("opts", {})
     for ops in job["hists"]:
         ops = [tuple(o) if not isinstance(o, tuple) else o for o in ops]
-        top = core.new_scratch(long_path=(part["evaluations"] % 2 == 1))
+        top = core.new_scratch(long_path=(part["evaluations"] % 4 == 1), via_symlink=(part["evaluations"] % 4 == 3))
         try:
             run = rfrun.execute(cfg, ops, seed, top, snapshot_rejects=opts.get("snapshot_rejects", False),
                                 sparse_getters=opts.get("sparse_getters", False))
